@@ -16,6 +16,12 @@ PROPERTIES = {
         "thorough": [{"match": "VerifH_c02_.*", "timeout": 1500}],
         "bounds": {}, "outside": [], "assumptions": [],
     },
+    "C03": {
+        "level": "model_checking",
+        "quick": [{"match": "VerifH_c03_.*", "timeout": 600}],
+        "thorough": [{"match": "VerifH_c03_.*", "timeout": 2400}],
+        "bounds": {}, "outside": [], "assumptions": [],
+    },
     "C18": {
         "level": "model_checking",
         "quick": [{"match": "VerifH_c18_.*", "timeout": 300}],
